@@ -45,18 +45,32 @@ def savable_classes(prog) -> List[ClassInfo]:
     return [c for c in prog.all_classes() if c is not sv and c.is_subclass_of(sv)]
 
 
-def run(chk: Check) -> None:
+def members_deepcopied(chk: Check, rule: str = 'PROV-copy-at-save') -> None:
+    """Auto-persisted members that are neither methods nor Savables are deep-copied into the saved state -- every one, whatever
+    its type (a tuple of mutable arguments is as shared as a list).  Shared with C13 (the next step's arguments)."""
+    prog = chk.prog
+    sm = prog.func('persistence.Savable.save_members')
+    ok = False
+    for n in ast.walk(sm.node):
+        if isinstance(n, ast.If) and 'ismethod' in norm(n.test):
+            cur = n
+            while len(cur.orelse) == 1 and isinstance(cur.orelse[0], ast.If):
+                cur = cur.orelse[0]
+            ok = any(isinstance(s, ast.Assign) and isinstance(s.value, ast.Call) and norm(s.value.func) == 'copy.deepcopy' for s in cur.orelse)
+    chk.ob(rule, sm, ok, 'save_members deep-copies every member that is neither a method nor a Savable', kind='members-deepcopied')
+
+
+def persisted_fields(chk: Check, rule: str = 'SYM-persisted-field') -> None:
+    """Reference table of what a checkpoint must carry: each field is auto-persisted or bound to one key on both the save and the
+    load side.  Shared with C08 (a field re-derived or dropped on load is a restored process that differs from the original)."""
     prog = chk.prog
     ctx = chk.ctx
-    classes = savable_classes(prog)
-    chk.floor('SYM-classes', len(classes), 20)
-
     # (i) reference table
     for cq, attr, how in PERSISTED:
         c = prog.cls(cq)
         auto = auto_persist_set(prog, c)
         if how == 'auto':
-            chk.ob('SYM-persisted-field', cq, attr in auto, f'{c.name}.{attr} is an auto-persisted member (auto_persist along the MRO: {sorted(auto)})',
+            chk.ob(rule, cq, attr in auto, f'{c.name}.{attr} is an auto-persisted member (auto_persist along the MRO: {sorted(auto)})',
                    kind=f'auto:{attr}', expr=attr)
         else:
             sb: Dict[object, Set[str]] = {}
@@ -69,10 +83,56 @@ def run(chk: Check) -> None:
                     for key, attrs in loaded_bindings(ctx, prog.view(k.methods['load_instance_state'])).items():
                         lb.setdefault(key, set()).update(attrs)
             keys = [key for key, attrs in sb.items() if attr in attrs and attr in lb.get(key, set())]
-            chk.ob('SYM-persisted-field', cq, bool(keys) or attr in auto,
+            chk.ob(rule, cq, bool(keys) or attr in auto,
                    f'{c.name}.{attr} is stored under a key on save and restored from the same key on load (keys binding it on both sides: '
                    f'{[str(k) for k in keys] or "none"}; saved: { {str(k): sorted(v) for k, v in sb.items()} }; loaded: { {str(k): sorted(v) for k, v in lb.items()} })',
                    kind=f'key:{attr}', expr=attr)
+
+
+def load_is_deterministic(chk: Check, rule: str = 'LOAD-deterministic') -> None:
+    """What a load rebuilds depends on the saved state and the load context only: no user callable (an outline predicate,
+    a step function, a callable port default, a user hook stored in an attribute) runs anywhere below a
+    ``load_instance_state`` / ``recreate_from`` / ``recreate_stepper`` -- it would make the loaded object depend on the
+    moment of loading, and saving it again would not give the bundle back.  The framework's own recursion
+    (call_with_super_check into load_instance_state, Process.init re-subscribing to the communicator) is what remains.
+    Shared with C08."""
+    prog, calls = chk.prog, chk.ctx.calls
+    USER_KINDS = ('attr-callable', 'param-callable', 'getattr-callable')
+    roots = []
+    for c in prog.all_classes():
+        for name in ('load_instance_state', 'recreate_from', 'recreate_stepper'):
+            f = c.methods.get(name)
+            if f is not None:
+                roots.append(f)
+    chk.floor(rule, len(roots), 15)
+    n_sites = 0
+    for f in roots:
+        seen: Dict[int, tuple] = {}
+        todo = [(f, (f.short,))]
+        while todo:
+            g, chain = todo.pop()
+            if id(g.node) in seen or len(chain) > 8:
+                continue
+            seen[id(g.node)] = chain
+            sm = calls.summary(g)
+            for call, t in sm.usites:
+                n_sites += 1
+                if t.ukind in USER_KINDS:
+                    chk.ob(rule, f, False, f'user code runs while loading: {norm(call)[:80]} ({t.ukind}) reached via {" -> ".join(chain)}: what is restored then depends on '
+                           'more than the saved state', node=call if g is f else None, kind=f'user-code-on-load:{g.short}', expr=norm(call)[:120])
+            for h in sm.callees:
+                todo.append((h, chain + (h.short,)))
+        chk.ob(rule, f, True, f'{f.short}: nothing below it calls a user-supplied callable ({len(seen)} functions reached)', kind='no-user-code')
+    chk.units['uncontrolled_sites_below_load'] = n_sites
+
+
+def run(chk: Check) -> None:
+    prog = chk.prog
+    ctx = chk.ctx
+    classes = savable_classes(prog)
+    chk.floor('SYM-classes', len(classes), 20)
+
+    persisted_fields(chk)
     # UNCLASSIFIED fields (informational)
     known = {(c, a) for c, a, _ in PERSISTED} | set(RUNTIME)
     for c in classes:
@@ -181,15 +241,10 @@ def run(chk: Check) -> None:
         uses = loaded_keys_of(prog, pl).get(k, [])
         ok = bool(uses) and all(any(isinstance(c, ast.Call) and norm(c.func) == 'self.decode_input_args' and any(u is x for x in ast.walk(c)) for c in ast.walk(pl.node)) for u in uses)
         chk.ob('PROV-copy-at-save', pl, ok, f'{k} is restored through decode_input_args', kind=f'decoded:{k}')
-    sm = prog.func('persistence.Savable.save_members')
-    ok = False
-    for n in ast.walk(sm.node):
-        if isinstance(n, ast.If) and 'ismethod' in norm(n.test):
-            cur = n
-            while len(cur.orelse) == 1 and isinstance(cur.orelse[0], ast.If):
-                cur = cur.orelse[0]
-            ok = any(isinstance(s, ast.Assign) and isinstance(s.value, ast.Call) and norm(s.value.func) == 'copy.deepcopy' for s in cur.orelse)
-    chk.ob('PROV-copy-at-save', sm, ok, 'save_members deep-copies every member that is neither a method nor a Savable', kind='members-deepcopied')
+    members_deepcopied(chk)
+    load_is_deterministic(chk)
+    from .c19 import class_identified_by_loader
+    class_identified_by_loader(chk, 'PROV-class-identifier')
     # 5. YAML tags
     mod = prog.module('persistence')
     reps, cons = {}, {}
